@@ -21,6 +21,11 @@ Theorem C05_well_locked_m_race_free : well_locked_m_race_free_statement.
 Proof. exact well_locked_m_race_free. Qed.
 Print Assumptions C05_well_locked_m_race_free.
 
+(** ... and with fields nobody writes, which may be read without a lock. *)
+Theorem C05_well_locked_ro_race_free : well_locked_ro_race_free_statement.
+Proof. exact well_locked_ro_race_free. Qed.
+Print Assumptions C05_well_locked_ro_race_free.
+
 (** Generic: nested acquisitions strictly increasing in rank (hence no read
     re-entrancy), releases matched, nothing held at the end => no reachable
     state has all unfinished threads blocked, writer preference included. *)
@@ -54,12 +59,13 @@ Proof. exact reentrant_read_deadlock_possible. Qed.
 Print Assumptions C05_reentrant_read_deadlock_possible.
 
 (** Instance, on the table extracted from the current source: every access
-    site outside the known findings holds the guards of its field; the
+    site outside the known findings holds the guards of its field (or reads a
+    field that has no write site at all); the
     acquired-while-held pairs outside the known findings admit a strictly
     increasing ranking; the translator resolved every lock receiver and
     function value it met. *)
 Theorem C05_discipline_holds :
-  forallb access_ok checked_accesses = true /\
+  forallb (access_ok_ro ro) checked_accesses = true /\
   forallb (order_ok (rank_of ranks)) checked_lock_order = true /\
   unresolved = [].
 Proof. exact discipline_holds. Qed.
@@ -88,3 +94,10 @@ Example C05_conforming_thread :
      Rel "home.homeContext.controlLock" W] = true.
 Proof. exact conforming_thread. Qed.
 Print Assumptions C05_conforming_thread.
+
+Example C05_conforming_order_thread :
+  conforms_order checked_lock_order []
+    [Acq "home.homeContext.controlLock" W; Acq "client.Storage.mu" W;
+     Rel "client.Storage.mu" W; Rel "home.homeContext.controlLock" W] = true.
+Proof. exact conforming_order_thread. Qed.
+Print Assumptions C05_conforming_order_thread.
